@@ -398,6 +398,7 @@ type RefDFA struct {
 	final  int
 	ids    map[string]int
 	sets   [][]int
+	cache  map[int64]int
 	extra  []rune // code points of the pattern outside of the base universe
 	NulHit bool   // some character set of the pattern contains code point 0
 }
@@ -451,6 +452,19 @@ func (d *RefDFA) Start() int { return 0 }
 
 // Next is the transition function (total: the empty set is the dead state).
 func (d *RefDFA) Next(s int, r rune) int {
+	key := int64(s)<<22 | int64(r)
+	if d.cache == nil {
+		d.cache = map[int64]int{}
+	}
+	if n, ok := d.cache[key]; ok {
+		return n
+	}
+	n := d.next(s, r)
+	d.cache[key] = n
+	return n
+}
+
+func (d *RefDFA) next(s int, r rune) int {
 	var nx []int
 	for _, q := range d.sets[s] {
 		nx = append(nx, d.a.trans[q][r]...)
